@@ -508,6 +508,9 @@ func (c *cbComp) Run(h *hlib.History) ([]hlib.Mon, bool) {
 			if total = satAdd(total, op[1]); total > 9000000000*second {
 				return nil, false
 			}
+		case len(op) == 2 && op[0] == 2 && op[1] < 0 && op[1] > -1000000*second:
+			// the wall clock is set back (the breaker's deadlines are wall-clock instants): only in histories made for it
+			total += op[1]
 		case len(op) == 1 && (op[0] == 3 || op[0] == 5):
 		case len(op) == 2 && op[0] == 4 && op[1] >= 1 && op[1] <= 64:
 		default:
@@ -1126,7 +1129,30 @@ func genLatencyEdge(rng *rand.Rand) hlib.History {
 	return h
 }
 
+// genBackstep: the breaker trips, nothing is in flight, then the wall clock is set back by an hour or a day: as long as the
+// clock reads less than trip instant + fallback duration the breaker answers with the fallback
+func genBackstep(rng *rand.Rand) hlib.History {
+	var h hlib.History
+	t0 := int64(1600000000)*second + rng.Int63n(20*second)
+	fb := hlib.Pick(rng, 10*second, 30*second, 60*second)
+	e := &ex{kind: 2, op: 2, metric: 0, tn: 5000, td: 10000} // NetworkErrorRatio() > 0.5
+	h.Cfg = append([]int64{t0, fb, hlib.Pick(rng, 10*second, 5*second), 0}, e.encode(nil)...)
+	for i := 0; i < 3; i++ {
+		h.Ops = append(h.Ops, []int64{0, 2}, []int64{1, 0, 502, 2})
+	}
+	h.Ops = append(h.Ops, []int64{2, hlib.Pick(rng, second, 2*second)}, []int64{0, 2})
+	h.Ops = append(h.Ops, []int64{2, -hlib.Pick(rng, 3600*second, 86400*second, 30*second)})
+	for i := 0; i < 6+rng.Intn(8); i++ {
+		h.Ops = append(h.Ops, []int64{2, hlib.Pick(rng, second, fb/2, fb, 2*fb)}, []int64{0, 2})
+	}
+	return h
+}
+
 func (c *cbComp) Gen(rng *rand.Rand, idx int, tier string, targeted bool) hlib.History {
+	if !targeted && rng.Intn(40) == 0 {
+		hlib.Count("clock_set_back_histories", 1)
+		return genBackstep(rng)
+	}
 	if !targeted && rng.Intn(20) == 0 {
 		hlib.Count("latency_edge_histories", 1)
 		return genLatencyEdge(rng)
